@@ -32,7 +32,8 @@ THEOREMS = [P + t for t in (
     "after_tls_hp_exact", "after_tls_hp_unchanged", "decryptPacket_keeps", "feedPre_verOk", "handleTurn_verOk")]
 THEOREMS += ["TLX.Props.C02Capstone." + t for t in (
     "quic_one_rtt_connection_exact", "quic_connection_exact_partial", "datagram_step", "feedAll_exact", "step_one_rtt_nc",
-    "genKeys_eq_rfc", "keysWf_rfc", "devQuic_rfc", "first_initial_rfc", "hello_establishes", "hello_establishes_rfc")]
+    "genKeys_eq_rfc", "keysWf_rfc", "devQuic_rfc", "first_initial_rfc", "hello_establishes", "hello_establishes_rfc",
+    "crypto_not_exported")]
 POINT = "run(): whole QUIC export, real tool vs TLX.QuicPipeline (toy AEAD + toy hp mask, real key schedule)"
 
 
